@@ -47,6 +47,12 @@ theorem getU64_put (v : BitVec 64) (rest : Bytes) :
   unfold putU64
   simp only [if_true, getU64_be64, and_self]
 
+theorem getU64_slice_be64 (v : BitVec 64) (rest : Bytes) : getU64 sliceBigEndian (be64 v ++ rest) = v := by
+  rw [k_sliceBigEndian]; exact getU64_be64 v rest
+
+theorem getU64_raw_be64 (v : BitVec 64) (rest : Bytes) : getU64 rawSliceBigEndian (be64 v ++ rest) = v := by
+  rw [k_rawSliceBigEndian]; exact getU64_be64 v rest
+
 theorem lenPrefix_eq (sz : Nat) : lenPrefix sz = some (be64 (w sz)) := by
   unfold lenPrefix
   simp only [k_writeLenWidth, k_writeLenBigEndian, k_writeLenValue, putU64]
